@@ -46,6 +46,13 @@ KMem(cfg, mode) == IF mode \in {"range", "interval"} THEN (IF HasField(cfg, "n")
                    ELSE IF cfg.k \in {"Rsi", "MyRSI", "Roc"} THEN cfg.n + 1 ELSE cfg.n
 
 AbsI(x) == IF x < 0 THEN -x ELSE x
+(* streams whose inputs are pairs <<m, e>> = (m / unit) * 2^e (dynamic ranges beyond 31-bit integers; modes range / interval only) *)
+Pairs(h) == h # <<>> /\ "pairs" \in DOMAIN h
+PairQ(x, u) == IF x[2] >= 0 THEN QMul(QFrac(x[1], u), <<Pow2(x[2]), WOne>>) ELSE QMul(QFrac(x[1], u), <<WOne, Pow2(-x[2])>>)
+RECURSIVE QExtFold(_, _, _, _)
+QExtFold(e, xs, i, u) == IF i > Len(xs) THEN e
+                        ELSE LET q == PairQ(xs[i], u) IN
+                             QExtFold(IF e = <<>> THEN <<q, q>> ELSE <<QMin(e[1], q), QMax(e[2], q)>>, xs, i + 1, u)
 RECURSIVE ExtFold(_, _, _)
 ExtFold(e, xs, i) == IF i > Len(xs) THEN e
                      ELSE ExtFold(IF e = <<>> THEN <<xs[i], xs[i]>>
@@ -82,12 +89,12 @@ Next == /\ l <= Len(Rec)
            ELSE /\ win' = LastK(win \o e.xs, KMem(hd.cfg, hd.mode))
                 /\ agg' = IF hd.mode = "rolling" THEN AggFold(agg, e.xs, 1) ELSE agg
                 /\ cnt' = cnt + Len(e.xs)
-                /\ maxabs' = MaxAbsSeq(e.xs, 1, maxabs)
+                /\ maxabs' = IF Pairs(hd) THEN maxabs ELSE MaxAbsSeq(e.xs, 1, maxabs)
                 /\ cur' = e.o /\ prv' = cur /\ gap' = Len(e.xs)
                 /\ curm' = IF "m" \in DOMAIN e THEN e.m ELSE <<"n">>
                 /\ mst' = IF hd.mode = "machine" THEN MFold(hd.cfg, mst, e.xs, 1) ELSE mst
-                /\ pos' = (pos /\ \A i \in 1..Len(e.xs) : e.xs[i] > 0)
-                /\ ext' = ExtFold(ext, e.xs, 1)
+                /\ pos' = IF Pairs(hd) THEN (pos /\ \A i \in 1..Len(e.xs) : e.xs[i][1] > 0) ELSE (pos /\ \A i \in 1..Len(e.xs) : e.xs[i] > 0)
+                /\ ext' = IF Pairs(hd) THEN QExtFold(ext, e.xs, 1, hd.unit) ELSE ExtFold(ext, e.xs, 1)
                 /\ UNCHANGED <<hd, sid, aux>>
 
 -----------------------------------------------------------------------------
@@ -159,14 +166,16 @@ RangeVerdict == \/ ~OIsSome(cur)
 (* C04 / C07 on recorded streams: an average stays inside the closed interval of the values it averages (Sma, Alma: the window,
    i.e. Min <= Sma, Alma <= Max; Ema: every value so far), "up to a few ulps of the bound itself, never by more".  The answer is
    decoded exactly from its bit key; the slack covers the rounding of the inputs x/unit themselves and of the N additions. *)
-AvgBounds == IF HasField(hd.cfg, "c") \/ ext = <<>> THEN <<FALSE, 0, 0>>
-             ELSE IF hd.cfg.k \in {"Sma", "Alma"} THEN LET e == ExtFold(<<>>, LastK(win, hd.cfg.n), 1) IN <<TRUE, e[1], e[2]>>
-             ELSE IF hd.cfg.k = "Ema" THEN <<TRUE, ext[1], ext[2]>>
-             ELSE <<FALSE, 0, 0>>
+AvgBounds == IF HasField(hd.cfg, "c") \/ ext = <<>> THEN <<FALSE, QZero, QZero>>
+             ELSE IF hd.cfg.k \in {"Sma", "Alma"} THEN
+                  (IF Pairs(hd) THEN LET e == QExtFold(<<>>, LastK(win, hd.cfg.n), 1, U) IN <<TRUE, e[1], e[2]>>
+                   ELSE LET e == ExtFold(<<>>, LastK(win, hd.cfg.n), 1) IN <<TRUE, QFrac(e[1], U), QFrac(e[2], U)>>)
+             ELSE IF hd.cfg.k = "Ema" THEN (IF Pairs(hd) THEN <<TRUE, ext[1], ext[2]>> ELSE <<TRUE, QFrac(ext[1], U), QFrac(ext[2], U)>>)
+             ELSE <<FALSE, QZero, QZero>>
 IntervalOK(o) ==
     LET b == AvgBounds IN
     \/ ~b[1]
-    \/ LET lo == QFrac(b[2], U) hi == QFrac(b[3], U) v == KeyQ(OKey(o))
+    \/ LET lo == b[2] hi == b[3] v == KeyQ(OKey(o))
            ulps == <<WFromInt((IF HasField(hd.cfg, "n") THEN hd.cfg.n ELSE 1) + 8), P52>>
        IN  /\ Tally("interval." \o hd.cfg.k)
            /\ QLe(QSub(lo, QMul(ulps, QAbs(lo))), v) /\ QLe(v, QAdd(hi, QMul(ulps, QAbs(hi))))
